@@ -38,6 +38,8 @@ fn main() {
         "cksum" => tvh::cksum::run(&mut rng, thorough, &corpus),
         "ext" => tvh::ext::run(&mut rng, thorough, &corpus),
         "conc" => tvh::conc::run(&mut rng, thorough, &corpus),
+        "agg" => tvh::agg::run(&mut rng, thorough, &corpus),
+        "config" => tvh::config::run(&mut rng, thorough, &corpus),
         "strategy" => tvh::strategy::run(&mut rng, thorough, &corpus),
         _ => { eprintln!("unknown component {comp}"); std::process::exit(2); }
     };
